@@ -39,11 +39,19 @@ Check (C15_spec_ok_on_model : forall (O : FloatOps),
   (forall a : F O, fsame O a a = true) ->
   forall c, gwf O c = true -> gspec_ok O c (grun_case O c) = true).
 Print Assumptions C15_spec_ok_on_model.
-Check (C15_spec_ok_sound_dist : forall (O : FloatOps) fixed san global name ovs ty d,
-  gspec_ok O (CDist O fixed san global name ovs) (ODist O ty d) = true ->
+Check (C15_spec_ok_sound_dist : forall (O : FloatOps) fixed san global name ovs usfx unit ty d fam,
+  gspec_ok O (CDist O fixed san global name ovs usfx unit) (ODist O ty d fam) = true ->
   optb_same O d (spec_choice O san global name ovs) = true
+  /\ (ty = true <-> spec_choice O san global name ovs <> None)
   /\ (ty = true <-> d <> None)).
 Print Assumptions C15_spec_ok_sound_dist.
+Check (C15_exposed_as_histogram_iff_buckets_apply : forall (O : FloatOps) san global name ovs usfx unit,
+  let '(fam, ty, dist) := render_family O (db_new O true san global ovs) usfx unit (eff_key san name) in
+  dist = spec_choice O san global name ovs
+  /\ (ty = true <-> spec_choice O san global name ovs <> None)
+  /\ (ty = true <-> dist <> None)
+  /\ fam = family_name usfx unit (eff_key san name)).
+Print Assumptions C15_exposed_as_histogram_iff_buckets_apply.
 Check (C15_spec_ok_sound_hist : forall (O : FloatOps) bounds done cs cnt sm,
   snap_ok O bounds done (cs, cnt, sm) = true ->
   cnt = N.of_nat (length (all_samples O done))
@@ -81,7 +89,7 @@ Print Assumptions C15_matcher_sound_suffix.
 Check (C15_matcher_suffix_refuted_before_fix : exists pre p, pre <> [] /\
   matches false (matcher_sanitized false (MSuffix, p)) (sanitize_name (pre ++ p)) = false).
 Print Assumptions C15_matcher_suffix_refuted_before_fix.
-Check (C15_suffix_override_refuted_before_fix : exists c : gcase ZO, (match c with CDist _ fixed _ _ _ _ => fixed = false | _ => False end)
+Check (C15_suffix_override_refuted_before_fix : exists c : gcase ZO, (match c with CDist _ fixed _ _ _ _ _ _ => fixed = false | _ => False end)
                        /\ gspec_ok ZO c (grun_case ZO c) = false).
 Print Assumptions C15_suffix_override_refuted_before_fix.
 Check (C15_window : forall (O : FloatOps) (n dur : N), 0 < n -> 0 < dur ->
